@@ -58,6 +58,16 @@ def cases(ctx):
         for nm in ['defaultdependencies', 'DefaultDependency', 'Foo', 'Image']:
             for val in ['1', '', '1\n' + nm + '=']:
                 out.append((ty, base + f'[Quadlet]\nDefaultDependencies=no\n{nm}={val}\n', nm, 'Quadlet'))
+                # … wherever [Quadlet] stands and whatever else the file holds: before the unit's own section, with an empty own
+                # section, with no own section at all (a .volume, .network or .pod needs none), after other sections
+                q = f'[Quadlet]\n{nm}={val}\n'
+                hdr = '[' + G.SEC[ty] + ']\n'
+                layouts = [q + base, '[Service]\nRestart=always\n' + q + base, base + '[Unit]\nDescription=d\n' + q + '[Install]\nWantedBy=default.target\n']
+                if not G.BASE[ty]:
+                    # a unit that is valid without any key of its own (otherwise another error may legitimately come first)
+                    layouts += [q, hdr + q, q + hdr, '[Service]\nRestart=always\n' + q, '[Unit]\nDescription=d\n' + q + '[Install]\nWantedBy=default.target\n']
+                for layout in layouts:
+                    out.append((ty, layout, nm, 'Quadlet'))
         # every documented key on its own: never an UnknownKey rejection
         for k in keys:
             out.append((ty, base + f'{k}=x\n', None, None))
